@@ -676,7 +676,7 @@ PAIRED_FOCUS = {
     "C04": ("filters", "demux", "combinatorial", "adapters", "qual", "nextseq", "sidefiles:0.3", "revcomp:0.25", "adapters2:0.7"),
     "C09": ("adapters", "adapters2:0.7", "times", "action"),
     "C05": tuple(x for x in FOCUS if x != "pair_adapters") + ("pair_adapters:0.35",),
-    "C10": ("cut", "qual", "length", "adapters", "trimn", "names", "zerocap", "nextseq", "stageorder:0.15"),
+    "C10": ("cut", "qual", "length", "adapters", "trimn", "names", "zerocap", "nextseq", "stageorder:0.15", "onesided:0.3"),
     "C11": ("filters", "pairfilter", "adapters", "onesided:0.3"),
     "C15": ("demux", "combinatorial", "adapters", "times"),
     "C16": ("revcomp", "adapters", "times", "action"),
